@@ -650,8 +650,13 @@ class Blowups(Sub):
                 yield ['fn', ni, ar]
         for t in HUGE_LITERALS:
             yield ['lit', t]
+        # a long column handed in as rows of one cell (what a range listener delivers): time must grow with its length, not
+        # with its square - and the interpreter must survive it
+        for fn in ('SUM', 'COUNT', 'MAX', 'AND', 'CONCATENATE', 'AVERAGE'):
+            for rows in (20000, 200000):
+                yield ['wide', fn, rows]
 
-    def guarded(self, env, p, text):
+    def guarded(self, env, p, text, per_char=0):
         import signal
 
         def onalarm(signum, frame):
@@ -660,7 +665,7 @@ class Blowups(Sub):
         signal.alarm(self.ALARM)
         try:
             try:
-                prob, raw = run_parse(env, p, text)
+                prob, raw = run_parse(env, p, text, per_char)
             except WallTimeout:
                 prob = ('parse did not return within %d s of wall-clock time (normal: < 10 ms): a computation below the '
                         'Python level that grows with the VALUE of an argument' % self.ALARM)
@@ -690,6 +695,16 @@ class Blowups(Sub):
         if case[0] == 'one':
             _, name, vals = case
             return self.one(env, name, vals)
+        if case[0] == 'wide':
+            _, fn, rows = case
+            env.nt()
+            p = env.new_parser()
+            p.set_variable('xs', [[1] for _ in range(rows)])
+            prob = self.guarded(env, p, '%s(xs)' % fn, per_char=30 * rows)
+            if prob:
+                env._c01_stalls = getattr(env, '_c01_stalls', 0) + ('wall-clock' in prob)
+                return fail('%s(xs) with xs = %d rows of one cell: %s' % (fn, rows, prob), None, None)
+            return None
         _, ni, ar = case
         name = documented(env)[ni]
         out = []
